@@ -542,17 +542,39 @@ func ruleDedupeKeepsOne(r *core.Reporter) {
 				var foreign []ir.IfInfo
 				for _, ii := range ir.Ifs(fn) {
 					a := ii.Atom
-					if a.V != nil {
-						if a.V == hit {
-							continue
+					isStatus := func(v ssa.Value) bool { _, f, ok := fieldOfLoad(v); return ok && f == "status" }
+					// a materialised decision (`replace := a && b && c; if replace`) is the same tests behind a flag
+					var ownBool func(v ssa.Value, d int) bool
+					ownBool = func(v ssa.Value, d int) bool {
+						if d > 6 {
+							return false
 						}
-						if c := ir.BoolCallAtom(a, "(*"+pkgModels+".Item).IsSeed"); c != nil && c.Call.Args[0] == existing {
+						switch x := v.(type) {
+						case *ssa.Const:
+							return true
+						case *ssa.Phi:
+							for _, e := range x.Edges {
+								if !ownBool(e, d+1) {
+									return false
+								}
+							}
+							return true
+						case *ssa.UnOp:
+							return x.Op == token.NOT && ownBool(x.X, d+1)
+						case *ssa.BinOp:
+							return isStatus(x.X) || isStatus(x.Y)
+						case *ssa.Call:
+							return ir.IsCallTo(x, "(*"+pkgModels+".Item).IsSeed") && len(x.Call.Args) == 1 && x.Call.Args[0] == existing
+						}
+						return v == hit
+					}
+					if a.V != nil {
+						if a.V == hit || ownBool(a.V, 0) {
 							continue
 						}
 						foreign = append(foreign, ii)
 						continue
 					}
-					isStatus := func(v ssa.Value) bool { _, f, ok := fieldOfLoad(v); return ok && f == "status" }
 					isLen := func(v ssa.Value) bool {
 						c, ok := v.(*ssa.Call)
 						return ok && ir.CallName(c.Common()) == "builtin.len"
